@@ -6,7 +6,13 @@ Spec: VarObjective.tla
               same integer instances (linear kernel, jitter 0) must return TLC's exact pieces;
   "ngd":      natural-gradient loop machine on rational instances (histories of NGD steps of size 1 and 1/2 and lr-0 hyperparameter
               steps) -> the real NaturalVariationalDistribution + gpytorch.optim.NGD must pass through TLC's exact q(u) after every action;
-  "lattice":  cells of the float64 replay on seeded SVGP models (strategy x kernel x mean x q family / distribution x start)."""
+  "lattice":  cells of the float64 replay on seeded SVGP models (strategy x kernel x mean x q family / distribution x start);
+              "noise" cells (FixedNoiseGaussianLikelihood x learn_additional_noise x minibatch index sequence x per-call noise= keyword) and
+              "hist" cells (state machine over the history of the raw variational parameters of every variational distribution class:
+              optimiser steps, dense raw tensors loaded through state_dict / assignment).
+Round 2: the objective is compared with the dense definition evaluated at the q(u) that variational_distribution() REPORTS (not only with
+the model's own q(f) / KL); the rational instances carry a per-point noise vector (non-constant = FixedNoiseGaussianLikelihood) and every
+q(u) is also handed over through a dense (non-triangular) raw factor."""
 import math
 import os
 import random
@@ -77,12 +83,22 @@ def rat(v):
 
 
 def inst_key(i):
-    return repr((plain(i["Z"]), plain(i["X"]), plain(i["y"]), int(i["s2"]), int(i["mc"])))
+    nv = plain(i["nv"]) if "nv" in i else [int(i["s2"])] * len(i["X"])
+    return repr((plain(i["Z"]), plain(i["X"]), plain(i["y"]), [int(v) for v in nv], int(i["mc"])))
 
 
 # ---------------------------------------------------------------------------------------------
 # (a) stub decoding on the real objective classes
+_STUBS = []
+
+
 def _stub_classes(torch, gpytorch):
+    if not _STUBS:
+        _STUBS.append(_make_stub_classes(torch, gpytorch))
+    return _STUBS[0]
+
+
+def _make_stub_classes(torch, gpytorch):
     D = torch.float64
 
     class StubLik(gpytorch.likelihoods.Likelihood):
@@ -91,11 +107,18 @@ def _stub_classes(torch, gpytorch):
         def forward(self, function_samples, **kw):
             raise RuntimeError("stub likelihood: forward must not be called")
 
+        @staticmethod
+        def _factor(kw):
+            # the keywords that arrive here: "noise" multiplies the per-point value by 5, "extra" by 7; anything else is a harness error
+            if set(kw) - {"noise", "extra"}:
+                raise core.Machinery("stub likelihood received unknown keywords %s" % sorted(kw))
+            return (5.0 if "noise" in kw else 1.0) * (7.0 if "extra" in kw else 1.0)
+
         def expected_log_prob(self, target, dist, *a, **kw):
-            return torch.tensor([2.0 ** (i + 1) for i in range(dist.event_shape[0])], dtype=D)
+            return self._factor(kw) * torch.tensor([2.0 ** (i + 1) for i in range(dist.event_shape[0])], dtype=D)
 
         def log_marginal(self, target, dist, *a, **kw):
-            return torch.tensor([3 * 2.0 ** (i + 1) for i in range(dist.event_shape[0])], dtype=D)
+            return self._factor(kw) * torch.tensor([3 * 2.0 ** (i + 1) for i in range(dist.event_shape[0])], dtype=D)
 
     class StubStrategy(gpytorch.Module):
         def kl_divergence(self):
@@ -144,8 +167,8 @@ def prior_sites(cf):
 
 
 def cf_desc(cf):
-    return "%s B=%d N=%d beta=%s combine_terms=%s priors=%d(on %s) added=%d event-rank=%d" % (
-        cf["obj"], cf["B"], cf["N"], Fraction(*cf["beta"]), cf["combine"], cf["np"], cf.get("psite", "model"), cf["nl"], cf["rank"])
+    return "%s B=%d N=%d beta=%s combine_terms=%s priors=%d(on %s) added=%d event-rank=%d keywords=%s" % (
+        cf["obj"], cf["B"], cf["N"], Fraction(*cf["beta"]), cf["combine"], cf["np"], cf.get("psite", "model"), cf["nl"], cf["rank"], list(cf.get("kw", [])) or "none")
 
 
 def run_asm(torch, gpytorch, c):
@@ -156,7 +179,12 @@ def run_asm(torch, gpytorch, c):
     B, N = cf["B"], cf["N"]
     beta = float(Fraction(*cf["beta"]))
     desc = cf_desc(cf)
-    nontrivial = cf["B"] > 1 or cf["N"] != cf["B"] or cf["beta"] != [1, 1] or cf["np"] > 0 or cf["nl"] > 0
+    nontrivial = cf["B"] > 1 or cf["N"] != cf["B"] or cf["beta"] != [1, 1] or cf["np"] > 0 or cf["nl"] > 0 or bool(cf.get("kw"))
+    callkw = {}
+    if "noise" in cf.get("kw", []):
+        callkw["noise"] = torch.full((B,), 0.25, dtype=torch.float64)
+    if "extra" in cf.get("kw", []):
+        callkw["extra"] = "anything"
     res = dict(key=["asm", cf], ok=True, nontrivial=nontrivial, predicted=not c["agree"], case=c)
     base = "C15/assembly/%s" % cf["obj"]
     g = torch.Generator().manual_seed(c["seed"])
@@ -196,7 +224,7 @@ def run_asm(torch, gpytorch, c):
     want_val = want_terms[0] - want_terms[1] + want_terms[2] - want_terms[3]
     if cf["obj"] != "gamma" and abs(want_val - rat(exp["val"])) > 1e-9 * max(1.0, abs(want_val)):
         return dict(machinery="TLC's value and TLC's terms disagree on %s" % desc)
-    ok, got = core.guarded(lambda: mk()(dist, y))
+    ok, got = core.guarded(lambda: mk()(dist, y, **callkw))
     res["sample"] = dict(configuration=desc, expected=(want_val if cf["combine"] else want_terms), coefficients={k: str(v) for k, v in coef.items()})
     if not ok:
         if cf["beta"][0] == 0:
@@ -236,7 +264,8 @@ STRATS = ("whitened", "unwhitened")
 def build_model(torch, gpytorch, strat, dist, Z, kernel, mean, jitter=None):
     V = gpytorch.variational
     scls = V.VariationalStrategy if strat == "whitened" else V.UnwhitenedVariationalStrategy
-    dcls = {"cholesky": V.CholeskyVariationalDistribution, "natural": V.NaturalVariationalDistribution, "tril": V.TrilNaturalVariationalDistribution}[dist]
+    dcls = {"cholesky": V.CholeskyVariationalDistribution, "natural": V.NaturalVariationalDistribution, "tril": V.TrilNaturalVariationalDistribution,
+            "meanfield": V.MeanFieldVariationalDistribution, "delta": V.DeltaVariationalDistribution}[dist]
 
     class SVGP(gpytorch.models.ApproximateGP):
         def __init__(s_):
@@ -263,31 +292,75 @@ def prior_blocks(torch, model, X, jit, bi=None):
                     L=torch.linalg.cholesky(Kzz))
 
 
-def set_q(torch, model, strat, dist, P, m, S, bi=None):
-    """put q(u) = N(m, S) (distribution of u = f(Z) itself) into the model's variational parameters (of batch element bi)"""
+RAW_NAMES = {"cholesky": ("variational_mean", "chol_variational_covar"), "natural": ("natural_vec", "natural_mat"), "tril": ("natural_vec", "natural_tril_mat"),
+             "meanfield": ("variational_mean", "_variational_stddev"), "delta": ("variational_mean",)}
+
+
+def structured_raw(torch, strat, dist, P, m, S):
+    """the raw parameter tensors (in their documented, structured form) that make the distribution report q(u) = N(m, S), u = f(Z)"""
+    if strat == "whitened":
+        mw = torch.linalg.solve_triangular(P["L"], (m - P["mz"]).unsqueeze(-1), upper=False).squeeze(-1)
+        Sw = torch.linalg.solve_triangular(P["L"], torch.linalg.solve_triangular(P["L"], S, upper=False).transpose(-1, -2), upper=False)
+        Sw = 0.5 * (Sw + Sw.transpose(-1, -2))
+    else:
+        mw, Sw = m, S
+    if dist == "cholesky":
+        return [mw, torch.linalg.cholesky(Sw)]
+    if dist == "meanfield":       # diagonal q(u) in the strategy's own coordinates
+        return [mw, Sw.diagonal().sqrt()]
+    if dist == "delta":
+        return [mw]
+    Pw = torch.linalg.inv(Sw)
+    Pw = 0.5 * (Pw + Pw.transpose(-1, -2))
+    if dist == "natural":
+        return [Pw @ mw, -0.5 * Pw]
+    Lw = torch.linalg.cholesky(Sw)      # S = L L^T,  natural_tril_mat = L^-1  (S^-1 = T^T T)
+    return [Pw @ mw, torch.linalg.solve_triangular(Lw, torch.eye(Sw.size(-1), dtype=torch.float64), upper=False)]
+
+
+def densify(torch, dist, raw, junk):
+    """the same q(u) through raw tensors in GENERIC position: entries above the diagonal of the Cholesky factor / of the natural matrices
+    (junk: M x M, only its strict upper triangle is used), negative standard deviations; these are not parameters of q(u)"""
+    raw = [t.clone() for t in raw]
+    if dist in ("cholesky", "natural", "tril"):
+        raw[1] = raw[1] + junk.triu(1)
+    elif dist == "meanfield":
+        raw[1] = raw[1] * torch.where(junk.diagonal() < 0, -1.0, 1.0).to(raw[1].dtype)
+    return raw
+
+
+def put_raw(torch, model, dist, raw, how="assign", bi=None):
+    """hand raw tensors to the variational distribution: in-place assignment or load_state_dict of a checkpoint"""
     vs = model.variational_strategy
     vd = vs._variational_distribution
-    pick = (lambda t: t) if bi is None else (lambda t: t[bi])
-    with torch.no_grad():
-        if strat == "whitened":
-            mw = torch.linalg.solve_triangular(P["L"], (m - P["mz"]).unsqueeze(-1), upper=False).squeeze(-1)
-            Sw = torch.linalg.solve_triangular(P["L"], torch.linalg.solve_triangular(P["L"], S, upper=False).transpose(-1, -2), upper=False)
-            Sw = 0.5 * (Sw + Sw.transpose(-1, -2))
-        else:
-            mw, Sw = m, S
-        if dist == "cholesky":
-            pick(vd.variational_mean).copy_(mw)
-            pick(vd.chol_variational_covar).copy_(torch.linalg.cholesky(Sw))
-        else:
-            Pw = torch.linalg.inv(Sw)
-            Pw = 0.5 * (Pw + Pw.transpose(-1, -2))
-            pick(vd.natural_vec).copy_(Pw @ mw)
-            if dist == "natural":
-                pick(vd.natural_mat).copy_(-0.5 * Pw)
+    names = RAW_NAMES[dist]
+    if how == "state_dict":
+        sd = {k: v.clone() for k, v in model.state_dict().items()}
+        for nm, t in zip(names, raw):
+            key = "variational_strategy._variational_distribution." + nm
+            if key not in sd:
+                raise core.Machinery("state_dict has no entry %s" % key)
+            if bi is None:
+                sd[key] = t.clone()
             else:
-                Lw = torch.linalg.cholesky(Sw)      # S = L L^T,  natural_tril_mat = L^-1  (S^-1 = T^T T)
-                pick(vd.natural_tril_mat).copy_(torch.linalg.solve_triangular(Lw, torch.eye(Sw.size(-1), dtype=torch.float64), upper=False))
-        vs.variational_params_initialized.fill_(1)
+                sd[key][bi] = t
+        sd["variational_strategy.variational_params_initialized"] = torch.tensor(1)
+        model.load_state_dict(sd)
+    else:
+        with torch.no_grad():
+            for nm, t in zip(names, raw):
+                par = getattr(vd, nm)
+                (par if bi is None else par[bi]).copy_(t)
+            vs.variational_params_initialized.fill_(1)
+
+
+def set_q(torch, model, strat, dist, P, m, S, bi=None, junk=None, how="assign"):
+    """put q(u) = N(m, S) (distribution of u = f(Z) itself) into the model's variational parameters (of batch element bi); junk: hand the
+    raw tensors over in generic (dense) position"""
+    raw = structured_raw(torch, strat, dist, P, m, S)
+    if junk is not None:
+        raw = densify(torch, dist, raw, junk)
+    put_raw(torch, model, dist, raw, how, bi)
 
 
 def get_q(torch, model, strat, P, bi=None):
@@ -297,37 +370,56 @@ def get_q(torch, model, strat, P, bi=None):
     pick = (lambda t: t) if bi is None else (lambda t: t[bi])
     with torch.no_grad():
         q = vs.variational_distribution
-        mw, Sw = pick(q.mean).clone(), pick(q.covariance_matrix).clone()
+        mw = pick(q.mean).clone()
+        Sw = pick(q.covariance_matrix).clone() if hasattr(q, "covariance_matrix") else torch.zeros(mw.numel(), mw.numel(), dtype=mw.dtype)     # Delta: a point
     if strat == "whitened":
         return P["mz"] + P["L"] @ mw, P["L"] @ Sw @ P["L"].T
     return mw, Sw
 
 
-def objective(torch, gpytorch, cls, model, lik, Xb, yb, N, beta=1.0, **kw):
-    """value of the real objective on a batch + the model's own q(f) marginals and KL"""
+def objective(torch, gpytorch, cls, model, lik, Xb, yb, N, beta=1.0, call_kw=None, **kw):
+    """value of the real objective on a batch + the model's own q(f) marginals and KL; call_kw: keywords of the call (forwarded to the likelihood)"""
     model.train()
     lik.train()
     mll = cls(lik, model, num_data=N, beta=beta, **kw)
     out = model(Xb)
-    val = mll(out, yb)
+    val = mll(out, yb, **(call_kw or {}))
     with torch.no_grad():
         return val, out.mean.detach().clone(), out.variance.detach().clone(), model.variational_strategy.kl_divergence().detach().clone()
 
 
 # ---------------------------------------------------------------------------------------------
 # (L1) rational instances through the real classes
-def rational_model(torch, gpytorch, inst, strat, dist):
+def inst_nv(inst):
+    return [int(v) for v in inst["nv"]] if "nv" in inst else [int(inst["s2"])] * len(inst["X"])
+
+
+def rational_model(torch, gpytorch, inst, strat, dist, likv=None):
+    """likv: "gaussian" (homoskedastic instances), "fixed" = FixedNoiseGaussianLikelihood(noise=nv), "fixed_learn" = the same noise split
+    into a stored part nv - 1/2 and a learned homoskedastic part 1/2 (learn_additional_noise=True)"""
     D = torch.float64
     Z = torch.tensor(inst["Z"], dtype=D)
     X = torch.tensor(inst["X"], dtype=D)
     y = torch.tensor(inst["y"], dtype=D)
-    lik = gpytorch.likelihoods.GaussianLikelihood().to(D)
+    nv = inst_nv(inst)
+    likv = likv or ("gaussian" if len(set(nv)) == 1 else "fixed")
     model = build_model(torch, gpytorch, strat, dist, Z, gpytorch.kernels.LinearKernel(), gpytorch.means.ConstantMean(), jitter=0.0)
+    nvt = torch.tensor(nv, dtype=D)
     with torch.no_grad():
-        lik.noise = float(inst["s2"])
+        if likv == "gaussian":
+            if len(set(nv)) != 1:
+                raise core.Machinery("a homoskedastic likelihood for a heteroskedastic instance")
+            lik = gpytorch.likelihoods.GaussianLikelihood().to(D)
+            lik.noise = float(nv[0])
+        elif likv == "fixed":
+            lik = gpytorch.likelihoods.FixedNoiseGaussianLikelihood(noise=nvt.clone()).to(D)
+        else:
+            lik = gpytorch.likelihoods.FixedNoiseGaussianLikelihood(noise=nvt - 0.5, learn_additional_noise=True).to(D)
+            lik.second_noise = 0.5
         model.covar_module.variance = 1.0
         model.mean_module.constant = float(inst["mc"])
-    if abs(float(lik.noise) - inst["s2"]) > 1e-12 or abs(float(model.covar_module.variance) - 1.0) > 1e-12:
+    eff = lik.noise.detach().reshape(-1)
+    if float((eff - nvt).abs().max() if eff.numel() == nvt.numel() else (eff - nvt[0]).abs().max()) > 1e-12 or abs(float(model.covar_module.variance) - 1.0) > 1e-12:
         raise core.Machinery("could not set integer hyperparameters exactly")
     model.train()
     lik.train()
@@ -343,36 +435,76 @@ def tvec(torch, v):
     return torch.tensor([rat(x) for x in v], dtype=torch.float64)
 
 
+def noise_kw(torch, likv, nv, idx):
+    """the per-call noise= keyword for the minibatch idx (values the caller gathers with the batch): the stored part of the noise"""
+    t = torch.tensor([float(nv[i]) for i in idx], dtype=torch.float64)
+    return t - 0.5 if likv == "fixed_learn" else t
+
+
 def run_rat(torch, gpytorch, c):
     inst, ql, strat, o = c["inst"], c["q"], c["strat"], c["out"]
+    raw, how, likv = c.get("raw", "tri"), c.get("how", "assign"), c.get("likv")
     n = len(inst["X"])
-    s2 = float(inst["s2"])
-    desc = "rational instance Z=%s X=%s y=%s noise=%d mean=%d, q(u)=%s, %s strategy" % (inst["Z"], inst["X"], inst["y"], inst["s2"], inst["mc"], ql, strat)
-    res = dict(key=["rat", inst_key(inst), ql, strat], ok=True, nontrivial=ql != "prior", case=c)
+    nv = inst_nv(inst)
+    likv = likv or ("gaussian" if len(set(nv)) == 1 else "fixed")
+    desc = "rational instance Z=%s X=%s y=%s noise=%s mean=%d (%s likelihood), q(u)=%s handed over as a %s raw factor (%s), %s strategy" % (
+        inst["Z"], inst["X"], inst["y"], nv, inst["mc"], likv, ql, "dense" if raw == "dense" else "lower-triangular", how, strat)
+    res = dict(key=["rat", inst_key(inst), ql, strat, raw, how, likv], ok=True, nontrivial=ql != "prior", case=c)
     base = "C15/rational/%s" % strat
     # TLC's exact pieces in float
-    ell = [-0.5 * math.log(2 * math.pi * s2) + rat(v) for v in o["ell"]]
+    ell = [-0.5 * math.log(2 * math.pi * nv[k]) + rat(v) for k, v in enumerate(o["ell"])]
     kl = rat(o["klr"]) + 0.5 * math.log(fr(o["kla"]))
     elbo = -0.5 * n * LOG2PI - 0.5 * math.log(fr(o["ea"])) + rat(o["er"])
     coll = -0.5 * n * LOG2PI - 0.5 * math.log(fr(o["ca"])) + rat(o["cr"])
     marg = -0.5 * n * LOG2PI - 0.5 * math.log(fr(o["ma"])) + rat(o["mr"])
     if abs(sum(ell) - kl - elbo) > 1e-9 * max(1.0, abs(elbo)) or elbo > coll + 1e-9 * max(1, abs(coll)) or coll > marg + 1e-9 * max(1, abs(marg)):
         return dict(machinery="TLC's pieces are inconsistent (ELBO %r, sum ell - KL %r, collapsed %r, marginal %r) on %s" % (elbo, sum(ell) - kl, coll, marg, desc))
+    qm, qS = tvec(torch, o["qm"]), tmat(torch, o["qS"])
     try:
-        model, lik, X, y, P = rational_model(torch, gpytorch, inst, strat, "cholesky")
-        set_q(torch, model, strat, "cholesky", P, tvec(torch, o["qm"]), tmat(torch, o["qS"]))
+        model, lik, X, y, P = rational_model(torch, gpytorch, inst, strat, "cholesky", likv)
+        rawC = tmat(torch, o["rawC"])
+        junk = None
+        if raw == "dense":
+            g = torch.Generator().manual_seed(c.get("seed", 0))
+            junk = rawC if ql == "raw" else torch.randn(qS.shape, generator=g, dtype=torch.float64) + 0.5   # entries above the diagonal: not parameters of q(u)
+        if ql == "raw":
+            # TLC's family member is DEFINED through the raw factor RawC: covariance Tril(RawC) Tril(RawC)^T; the unwhitened strategy receives
+            # RawC itself (exact integers), the whitened one the factor of the whitened covariance (L^-1 Tril(RawC), lower triangular)
+            T = rawC.tril()
+            if float((T @ T.T - qS).abs().max()) > 1e-12:
+                return dict(machinery="TLC's raw family member is not Tril(RawC) Tril(RawC)^T on %s" % desc)
+            Tw = T if strat == "unwhitened" else torch.linalg.solve_triangular(P["L"], T, upper=False)
+            mw = qm if strat == "unwhitened" else torch.linalg.solve_triangular(P["L"], (qm - P["mz"]).unsqueeze(-1), upper=False).squeeze(-1)
+            put_raw(torch, model, "cholesky", [mw, Tw + (junk.triu(1) if junk is not None else 0.0)], how)
+        else:
+            set_q(torch, model, strat, "cholesky", P, qm, qS, junk=junk, how=how)
     except core.Machinery:
         raise
     except Exception as e:   # noqa
         res.update(ok=False, sig=base + "/raises", detail="%s: building the model raises %s: %s" % (desc, type(e).__name__, e))
         return res
     V = gpytorch.mlls.VariationalELBO
+    rt, at = 1e-8, 1e-10
+    # the q(u) the variational distribution reports must be the one that was handed over (a difference is a disagreement about the
+    # parametrisation, reported with the objective's value below: the objective is judged at the REPORTED q(u))
+    rm, rS = get_q(torch, model, strat, P)
+    same_q = core.close(rm, qm, 1e-9, 1e-11)[0] and core.close(rS, qS, 1e-9, 1e-11)[0]
     ok, got = core.guarded(lambda: objective(torch, gpytorch, V, model, lik, X, y, n))
     if not ok:
         res.update(ok=False, sig=base + "/raises", detail="%s: %s" % (desc, got))
         return res
     val, mu, var, klv = got
-    rt, at = 1e-8, 1e-10
+    if not same_q:
+        # exact definition at the reported q(u) in float64 (jitter 0, well-conditioned 2 x 2 / 1 x 1 blocks)
+        nvt = torch.tensor([float(v) for v in nv], dtype=torch.float64)
+        d = definition_at_q(torch, P, rm, rS, list(range(n)), y, nvt, n, 1.0, 0.0, strat, "cholesky")
+        okd, why = core.close(float(val), d["elbo"][0], 1e-7, 1e-9)
+        if not okd:
+            res.update(ok=False, sig=base + "/reported-q/%s-raw" % raw, detail="%s: the variational distribution reports q(u) = N(%s, %s) (handed over: N(%s, %s)); VariationalELBO = %r but the "
+                       "definition evaluated at the reported q(u) is %r: %s" % (desc, rm.tolist(), rS.tolist(), qm.tolist(), qS.tolist(), float(val), d["elbo"][0], why))
+            return res
+        res["drift"] = "%s: the reported q(u) differs from the lower-triangle reading of the raw factor (objective consistent with the reported q(u))" % desc
+        return res
     ok, why = core.close(float(val) * n, elbo, rt, at)
     if not ok:
         okm, _ = core.close(mu, tvec(torch, o["mu"]), rt, at)
@@ -389,17 +521,20 @@ def run_rat(torch, gpytorch, c):
         if not ok:
             res.update(ok=False, sig=base + "/collapsed-attained", detail="%s: at the optimal q(u) N * ELBO = %r, collapsed bound %r: %s" % (desc, float(val) * n, coll, why))
             return res
-    # minibatch / num_data / beta scaling of the same q: definition assembled from TLC's exact per-point terms
+    # minibatch / num_data / beta scaling of the same q: definition assembled from TLC's exact per-point terms; a likelihood with known
+    # per-point noise receives the minibatch's noise through the objective's noise= keyword (also for a permuted full batch)
     for (idx, N, beta) in c["batches"]:
         Xb, yb = X[idx], y[idx]
         want = sum(ell[i] for i in idx) / len(idx) - beta / N * kl
-        ok, got = core.guarded(lambda: objective(torch, gpytorch, V, model, lik, Xb, yb, N, beta))
+        ckw = None if likv == "gaussian" else dict(noise=noise_kw(torch, likv, nv, idx))
+        ok, got = core.guarded(lambda: objective(torch, gpytorch, V, model, lik, Xb, yb, N, beta, call_kw=ckw))
         if not ok:
             res.update(ok=False, sig=base + "/minibatch/raises", detail="%s minibatch %s N=%d beta=%s: %s" % (desc, idx, N, beta, got))
             return res
         ok, why = core.close(float(got[0]), want, rt, at)
         if not ok:
-            res.update(ok=False, sig=base + "/minibatch-scaling", detail="%s: minibatch %s, num_data=%d, beta=%s: objective %r, definition %r: %s" % (desc, idx, N, beta, float(got[0]), want, why))
+            res.update(ok=False, sig=base + "/minibatch-scaling" + ("" if likv == "gaussian" else "/noise-keyword"), detail="%s: minibatch %s%s, num_data=%d, beta=%s: objective %r, definition %r: %s" % (
+                desc, idx, "" if ckw is None else " with noise=%s" % ckw["noise"].tolist(), N, beta, float(got[0]), want, why))
             return res
     res["sample"] = dict(case=desc, N_ELBO=elbo, collapsed=coll, log_marginal=marg)
     return res
@@ -408,7 +543,7 @@ def run_rat(torch, gpytorch, c):
 def run_ngdrat(torch, gpytorch, c):
     inst, strat, hist, exp = c["inst"], c["strat"], c["hist"], c["exp"]
     n = len(inst["X"])
-    desc = "rational instance Z=%s X=%s y=%s noise=%d mean=%d, start %s, %s strategy, history %s" % (inst["Z"], inst["X"], inst["y"], inst["s2"], inst["mc"], c["q0"], strat, hist)
+    desc = "rational instance Z=%s X=%s y=%s noise=%s mean=%d, start %s, %s strategy, history %s" % (inst["Z"], inst["X"], inst["y"], inst_nv(inst), inst["mc"], c["q0"], strat, hist)
     res = dict(key=["ngdrat", inst_key(inst), c["q0"], strat, hist], ok=True, nontrivial=len(hist) >= 2, case=c, n=len(hist))
     base = "C15/ngd-rational/%s" % strat
     try:
@@ -562,21 +697,55 @@ def logn(torch, y, mean, C):
 
 
 def reference(torch, P, y, s2, jit):
-    """exact log marginal, collapsed bound and optimal q(u) on the model's own prior blocks (Kzz includes the strategy's jitter)"""
+    """exact log marginal, collapsed bound and optimal q(u) on the model's own prior blocks (Kzz includes the strategy's jitter); s2: the
+    noise variance (a number) or the per-point noise variances (a vector)"""
     n = y.numel()
     I = torch.eye(n, dtype=torch.float64)
+    sv = torch.as_tensor(s2, dtype=torch.float64).reshape(-1)
+    sv = sv.expand(n).clone() if sv.numel() == 1 else sv
+    if sv.numel() != n:
+        raise core.Machinery("noise vector of %d entries for %d points" % (sv.numel(), n))
+    Dn = torch.diag(sv)
     Kzz, Kzx, Kxx, mz, mx = P["Kzz"], P["Kzx"], P["Kxx"], P["mz"], P["mx"]
     Q = Kzx.T @ torch.cholesky_solve(Kzx, P["L"])
-    ex = logn(torch, y, mx, Kxx + s2 * I)
-    exj = logn(torch, y, mx, Kxx + (s2 + jit) * I)
-    tr = float((Kxx.diagonal() - Q.diagonal()).sum())
-    col0 = logn(torch, y, mx, Q + s2 * I) - tr / (2 * s2)
-    col1 = col0 - n * jit / (2 * s2)             # the strategy also added the jitter to the diagonal of Kxx
-    Sg = torch.linalg.inv(Kzz + Kzx @ Kzx.T / s2)
+    ex = logn(torch, y, mx, Kxx + Dn)
+    exj = logn(torch, y, mx, Kxx + Dn + jit * I)
+    tr = float(((Kxx.diagonal() - Q.diagonal()) / (2 * sv)).sum())
+    col0 = logn(torch, y, mx, Q + Dn) - tr
+    col1 = col0 - float((jit / (2 * sv)).sum())             # the strategy also added the jitter to the diagonal of Kxx
+    Sg = torch.linalg.inv(Kzz + (Kzx / sv) @ Kzx.T)
     Ss = Kzz @ Sg @ Kzz
     Ss = 0.5 * (Ss + Ss.T)
-    ms = mz + Kzz @ Sg @ Kzx @ (y - mx) / s2
+    ms = mz + Kzz @ Sg @ (Kzx / sv) @ (y - mx)
     return dict(ex=ex, exj=exj, col0=col0, col1=col1, ms=ms, Ss=Ss, tr=tr)
+
+
+def definition_at_q(torch, P, m, S, idx, yb, sv, N, beta, jit, strat, dist):
+    """VariationalELBO / PredictiveLogLikelihood of the minibatch idx straight from the definition, at q(u) = N(m, S) (u = f(Z); S = 0: a
+    point), with the prior blocks P of the full input set and the per-point noise sv of the minibatch.  Returns for each objective the pair
+    (without, with) the strategy's jitter on the diagonal of Kxx.  KL: dense Gaussian KL(q(u) || p(u)); for a point (Delta) the library
+    documents MAP inference: the KL term is minus the log prior density at the point, in the strategy's own coordinates"""
+    A = torch.cholesky_solve(P["Kzx"], P["L"])[:, idx]            # Kzz^-1 Kzx
+    mu = P["mx"][idx] + A.T @ (m - P["mz"])
+    Qd = (P["Kzx"][:, idx] * A).sum(0)
+    v0 = P["Kxx"].diagonal()[idx] - Qd + ((S @ A) * A).sum(0)
+    M = m.numel()
+    if dist == "delta":
+        if strat == "whitened":
+            mw = torch.linalg.solve_triangular(P["L"], (m - P["mz"]).unsqueeze(-1), upper=False).squeeze(-1)
+            kl = float(0.5 * mw.dot(mw) + 0.5 * M * LOG2PI)
+        else:
+            kl = -logn(torch, m, P["mz"], P["Kzz"])
+    else:
+        kl = kl_gauss(torch, m, S, P["mz"], P["Kzz"])
+    out = dict(kl=kl, elbo=[], pll=[])
+    B = len(idx)
+    for v in (v0, v0 + jit):
+        e = (-0.5 * torch.log(2 * math.pi * sv) - ((yb - mu) ** 2 + v) / (2 * sv)).sum()
+        l = (-0.5 * torch.log(2 * math.pi * (v + sv)) - (yb - mu) ** 2 / (2 * (v + sv))).sum()
+        out["elbo"].append(float(e) / B - beta / N * kl)
+        out["pll"].append(float(l) / B - beta / N * kl)
+    return out
 
 
 def kl_gauss(torch, m, S, m0, S0):
@@ -824,14 +993,299 @@ def run_cell(torch, gpytorch, c):
     return res
 
 
-RUNNERS = {"asm": run_asm, "rat": run_rat, "ngdrat": run_ngdrat, "cell": run_cell}
+# ---------------------------------------------------------------------------------------------
+# (L3) history of the raw variational parameters ("hist" cells of VarObjective.tla)
+KERNS = ("rbf", "matern", "rbf_ard")
+HIST_LR = dict(sgd=0.05, adam=0.05, hyper=0.05, ngd=0.3, ngd1=1.0)
+
+
+def hetero_noise(torch, g, n, level):
+    """known per-point noise levels around `level` (strongly heteroskedastic, >= 40% of it)"""
+    return level * (0.4 + 1.6 * torch.rand(n, generator=g, dtype=torch.float64))
+
+
+def random_q(torch, dist, P, R, g, strat):
+    """a q(u) of the distribution class in general position (mean-field: diagonal in the strategy's own coordinates)"""
+    D = torch.float64
+    M = P["Kzz"].size(0)
+    m = R["ms"] + 0.6 * torch.randn(M, generator=g, dtype=D)
+    if dist == "meanfield":
+        d = 0.15 + torch.rand(M, generator=g, dtype=D)
+        S = torch.diag(d)
+        if strat == "whitened":
+            S = P["L"] @ S @ P["L"].T
+        return m, 0.5 * (S + S.T)
+    if dist == "delta":
+        return m, torch.zeros(M, M, dtype=D)
+    W = torch.randn(M, M + 2, generator=g, dtype=D)
+    S = W @ W.T / (M + 2) + 0.05 * torch.eye(M, dtype=D)
+    if strat == "whitened":      # comparable scale in the strategy's coordinates
+        S = P["L"] @ S @ P["L"].T
+    return m, 0.5 * (S + S.T)
+
+
+def run_hist(torch, gpytorch, c):
+    cell, seed, hist, exp = c["cell"], c["seed"], c["hist"], c["exp"]
+    D = torch.float64
+    strat, dist, likk = cell["strat"], cell["dist"], cell["lik"]
+    res = dict(key=["hist", cell, hist, seed], ok=True, nontrivial=len(hist) >= 1, case=c, n=0)
+    rint = random.Random(seed)
+    cell2 = dict(sec="hist", strat=strat, kern=KERNS[seed % 3], mean=("constant", "zero")[(seed // 3) % 2])
+    prob = seeded_problem(torch, gpytorch, cell2, seed, dist)
+    if prob is None:
+        res.update(nontrivial=False, skipped=True)
+        return res
+    model, lik, X, y, g, _ = prob
+    n = X.size(-2)
+    if likk == "fixed":
+        lik = gpytorch.likelihoods.FixedNoiseGaussianLikelihood(noise=hetero_noise(torch, g, n, float(lik.noise))).to(D)
+    jit = float(model.variational_strategy.jitter_val)
+    base = "C15/hist/%s/%s" % (strat, dist)
+    desc0 = "SVGP %s strategy, %s variational distribution, %s likelihood, %s kernel, %s mean, seed=%d n=%d m=%d" % (
+        strat, dist, "FixedNoiseGaussian" if likk == "fixed" else "Gaussian", cell2["kern"], cell2["mean"], seed, n, model.variational_strategy.inducing_points.size(-2))
+    model.train()
+    lik.train()
+    ok, err = core.guarded(lambda: model(X))      # first call: the strategy initialises q(u) from its prior ("fresh")
+    if not ok:
+        res.update(ok=False, sig=base + "/raises", detail="%s: first call raises %s" % (desc0, err))
+        return res
+    vd = model.variational_strategy._variational_distribution
+    vpar = [getattr(vd, nm) for nm in RAW_NAMES[dist]]
+    hyper = [p for p in list(model.parameters()) + list(lik.parameters()) if all(p is not q for q in vpar)]
+    V, PLL = gpytorch.mlls.VariationalELBO, gpytorch.mlls.PredictiveLogLikelihood
+    mll = V(lik, model, num_data=n)
+    opts = {}
+
+    def opt(a):
+        if a not in opts:
+            if a == "sgd":
+                opts[a] = torch.optim.SGD(vpar, lr=HIST_LR[a])
+            elif a == "adam":
+                opts[a] = torch.optim.Adam(vpar + hyper, lr=HIST_LR[a])
+            elif a == "hyper":
+                opts[a] = torch.optim.Adam(hyper, lr=HIST_LR[a])
+            else:
+                opts[a] = gpytorch.optim.NGD(vpar, num_data=n, lr=HIST_LR[a])
+        return opts[a]
+
+    def noise_now():
+        with torch.no_grad():
+            return lik.noise.detach().reshape(-1).clone() if likk == "fixed" else lik.noise.detach().reshape(-1).expand(n).clone()
+
+    def act(a):
+        if a in ("load_dense", "assign_dense"):
+            P = prior_blocks(torch, model, X, jit)
+            R = reference(torch, P, y, noise_now(), jit)
+            m0, S0 = random_q(torch, dist, P, R, g, strat)
+            M = m0.numel()
+            junk = torch.randn(M, M, generator=g, dtype=D)
+            junk = junk + 0.5 * junk.sign()              # every entry above the diagonal (every sign flip) is far from zero
+            set_q(torch, model, strat, dist, P, m0, S0, junk=junk, how="state_dict" if a == "load_dense" else "assign")
+            return
+        o = opt(a)
+        for p in vpar + hyper:
+            p.grad = None
+        (-mll(model(X), y)).backward()
+        o.step()
+
+    def verify(k, label):
+        """every clause of the state reached after k actions, at the q(u) the variational distribution reports"""
+        tag = "after %s" % (hist[:k] if k else "the first call (fresh)")
+        desc = "%s, %s" % (desc0, tag)
+        sv = noise_now()
+        P = prior_blocks(torch, model, X, jit)
+        R = reference(torch, P, y, sv, jit)
+        mq, Sq = get_q(torch, model, strat, P)
+        full = list(range(n))
+        perm = full[:]
+        rint.shuffle(perm)
+        mb = sorted(rint.sample(full, max(2, n // 3)))
+        for (idx, N, beta, kwgiven) in ((full, n, 1.0, False), (perm, n, 1.0, True), (mb, 2 * n, 0.5, True)):
+            Xb, yb = X[idx], y[idx]
+            ckw = dict(noise=sv[idx].clone()) if (likk == "fixed" and kwgiven) else None
+            if likk == "fixed" and not kwgiven and idx != full:
+                continue
+            want = definition_at_q(torch, P, mq, Sq, idx, yb, sv[idx], N, beta, jit, strat, dist)
+            for cls, name in ((V, "elbo"), (PLL, "pll")):
+                if name == "pll" and idx is perm:
+                    continue
+                okk, got = core.guarded(lambda: objective(torch, gpytorch, cls, model, lik, Xb, yb, N, beta, call_kw=ckw))
+                if not okk:
+                    res.update(ok=False, sig=base + "/%s/raises" % name, detail="%s, batch %s: %s" % (desc, idx, got))
+                    return False
+                res["n"] += 1
+                val = float(got[0])
+                if not within(val, want[name][0], want[name][1], 1e-7):
+                    res.update(ok=False, sig=base + "/%s/definition-at-reported-q%s" % (name, "/noise-keyword" if ckw else ""),
+                               detail="%s: batch %s, num_data=%d, beta=%s%s: %s = %r but the definition evaluated at the q(u) that variational_distribution() reports "
+                                      "(dense q(f) marginals, dense %s = %r) gives %r (%r with the jitter %g on diag Kxx); the library's own KL term is %r" % (
+                                   desc, idx, N, beta, ", noise= keyword given" if ckw else "", cls.__name__, val,
+                                   "-log p(u)" if dist == "delta" else "KL(q(u) || p(u))", want["kl"], want[name][0], want[name][1], jit, float(got[3])))
+                    return False
+                if idx is full and name == "elbo":
+                    E = val * n
+        if dist == "delta":
+            return True
+        res["n"] += 1
+        top = max(R["ex"], R["exj"])
+        if E > top + 1e-9 * max(1.0, abs(top)):
+            res.update(ok=False, sig=base + "/bound", detail="%s: N * ELBO = %r exceeds the exact log marginal likelihood %r" % (desc, E, R["ex"]))
+            return False
+        klq = kl_gauss(torch, mq, Sq, R["ms"], R["Ss"])
+        if not within(E, R["col1"] - klq, R["col0"] - klq, 1e-6):
+            res.update(ok=False, sig=base + "/gap-is-kl", detail="%s: N * ELBO = %r; collapsed bound %r minus KL(reported q(u) || optimal q(u)) = %r gives %r" % (desc, E, R["col0"], klq, R["col0"] - klq))
+            return False
+        if label["gap"] == "attained":
+            okm, whym = core.close(mq, R["ms"], 1e-6, 1e-8)
+            okS, whyS = core.close(Sq, R["Ss"], 1e-6, 1e-8)
+            if not (okm and okS and within(E, R["col1"], R["col0"], 1e-6)):
+                res.update(ok=False, sig=base + "/one-step-optimal", detail="%s: after a natural-gradient step of size one q(u) must be the optimal one and N * ELBO = %r the collapsed bound %r: mean %s covariance %s" % (
+                    desc, E, R["col0"], whym or "ok", whyS or "ok"))
+                return False
+        res.setdefault("gaps", []).append(klq)
+        return True
+
+    if c.get("fresh", True) and not verify(0, exp[0]):
+        return res
+    for k, a in enumerate(hist):
+        ok, err = core.guarded(act, a)
+        if not ok:
+            res.update(ok=False, sig=base + "/raises", detail="%s: action %d (%s) of %s raises %s" % (desc0, k + 1, a, hist, err))
+            return res
+        if not verify(k + 1, exp[k + 1]):
+            return res
+    # abstract position of the raw tensors (vacuity guard of the generic-position states; not a verdict)
+    with torch.no_grad():
+        rawm = getattr(vd, RAW_NAMES[dist][-1]).detach()
+        res["generic"] = bool(dist in ("cholesky", "natural", "tril") and float(rawm.triu(1).abs().max()) > 1e-3 and
+                              (dist != "natural" or float((rawm - rawm.T).abs().max()) > 1e-3)) or bool(dist == "meanfield" and float(rawm.min()) < 0)
+    res["sample"] = dict(case=desc0, history=hist, final_position=exp[-1]["pos"], KL_to_optimal_q=res.get("gaps", [None])[-1])
+    return res
+
+
+# ---------------------------------------------------------------------------------------------
+# (L4) the noise of minibatch point k ("noise" cells of VarObjective.tla)
+def run_noise(torch, gpytorch, c):
+    cell, seed, exp = c["cell"], c["seed"], c["exp"]
+    D = torch.float64
+    strat, Ns, idx1, kw, learn = cell["strat"], cell["Ns"], cell["idx"], cell["kw"], cell["learn"]
+    idx = [i - 1 for i in idx1]
+    B = len(idx)
+    res = dict(key=["noise", cell, seed], ok=True, nontrivial=True, case=c, n=0)
+    if not exp["defined"]:
+        res.update(nontrivial=False, undefined=True)
+        return res
+    g = torch.Generator().manual_seed(seed)
+    cell2 = dict(sec="noise", strat=strat, kern=KERNS[seed % 3], mean=("constant", "zero")[(seed // 3) % 2])
+    e = None
+    for attempt in range(5):
+        e = draw_element(torch, gpytorch, cell2, g, Ns, 2, 2)
+        if e is not None:
+            break
+    if e is None:
+        res.update(nontrivial=False, skipped=True)
+        return res
+    lvl = e["noise"]
+    stored = {j: lvl * (0.45 + 0.55 * j) for j in range(1, Ns + 1)}          # StoredVal(j)
+    fresh = {10 + k: lvl * (0.3 + 0.4 * k) for k in range(1, B + 1)}         # FreshVal(k)
+    second = 0.35 * lvl
+    val_of = lambda v: stored[v] if v in stored else fresh[v]   # noqa
+    kernel = make_kernel(torch, gpytorch, cell2["kern"], 2, e["ls"], e["osc"], torch.Size([]))
+    if cell2["mean"] == "constant":
+        mean = gpytorch.means.ConstantMean().to(D)
+        mean.constant = e["mc"]
+    else:
+        mean = gpytorch.means.ZeroMean().to(D)
+    model = build_model(torch, gpytorch, strat, "cholesky", e["Z"], kernel, mean)
+    lik = gpytorch.likelihoods.FixedNoiseGaussianLikelihood(noise=torch.tensor([stored[j] for j in range(1, Ns + 1)], dtype=D), learn_additional_noise=learn).to(D)
+    if learn:
+        lik.second_noise = torch.tensor(second, dtype=D)
+        second = float(lik.second_noise)          # the value the likelihood holds (its setter goes through the constraint's inverse transform)
+    X, y = e["X"], e["y"]
+    jit = float(model.variational_strategy.jitter_val)
+    base = "C15/noise/%s" % ("fixed+learned" if learn else "fixed")
+    shape = "B<N" if B < Ns else ("B>N" if B > Ns else ("B=N stored order" if idx == list(range(Ns)) else ("B=N permuted" if sorted(idx) == list(range(Ns)) else "B=N resampled")))
+    desc = "SVGP %s strategy, FixedNoiseGaussianLikelihood(%d stored noise values%s), minibatch = data points %s (%s), noise= keyword %s, seed=%d" % (
+        strat, Ns, ", learn_additional_noise" if learn else "", idx1, shape, {"none": "not given", "gathered": "= the noise of the minibatch points", "fresh": "= new values"}[kw], seed)
+    model.train()
+    lik.train()
+    ok, err = core.guarded(lambda: model(X))
+    if not ok:
+        res.update(ok=False, sig=base + "/raises", detail="%s: first call raises %s" % (desc, err))
+        return res
+    P = prior_blocks(torch, model, X, jit)
+    R0 = reference(torch, P, y, torch.tensor([stored[j] + (second if learn else 0.0) for j in range(1, Ns + 1)], dtype=D), jit)
+    m0, S0 = q_family(torch, "random", P, R0, g)
+    set_q(torch, model, strat, "cholesky", P, m0, S0)
+    Xb, yb = X[idx], y[idx]
+    sv = torch.tensor([val_of(v) + (second if exp["second"] else 0.0) for v in exp["base"]], dtype=D)      # the spec's per-point noise, resolved
+    ckw = None if kw == "none" else dict(noise=torch.tensor([val_of(v) for v in exp["base"]], dtype=D))
+    N, beta = (Ns, 1.0) if seed % 2 else (2 * Ns + 1, 0.5)
+    for cls, name in ((gpytorch.mlls.VariationalELBO, "elbo"), (gpytorch.mlls.PredictiveLogLikelihood, "pll"), (gpytorch.mlls.GammaRobustVariationalELBO, "gamma")):
+        if name == "gamma" and not c.get("gamma", True):
+            continue
+        okk, got = core.guarded(lambda: objective(torch, gpytorch, cls, model, lik, Xb, yb, N, beta, call_kw=ckw))
+        if not okk:
+            res.update(ok=False, sig=base + "/%s/raises" % name, detail="%s: %s raises %s" % (desc, cls.__name__, got))
+            return res
+        val, mu, var, kl = got
+        if name == "elbo":
+            per = -0.5 * torch.log(2 * math.pi * sv) - ((yb - mu) ** 2 + var) / (2 * sv)
+        elif name == "pll":
+            per = -0.5 * torch.log(2 * math.pi * (var + sv)) - (yb - mu) ** 2 / (2 * (var + sv))
+        else:
+            # gamma-robust per-point terms: measured on one-point batches of the same class with that point's noise (B = N = 1: factor one);
+            # a one-point batch never has the stored size (Ns >= 2)
+            pts = []
+            for k in range(B):
+                di = gpytorch.distributions.MultivariateNormal(mu[k:k + 1], torch.diag(var[k:k + 1]))
+                okp, t = core.guarded(lambda: cls(lik, model, num_data=1, beta=1.0, combine_terms=False)(di, yb[k:k + 1], noise=sv[k:k + 1] - (second if learn else 0.0)))
+                if not okp:
+                    res.update(ok=False, sig=base + "/gamma/raises", detail="%s: one-point objective raises %s" % (desc, t))
+                    return res
+                pts.append(float(t[0]))
+            per = torch.tensor(pts, dtype=D)
+        want = float(per.sum()) / B - beta / N * float(kl)
+        res["n"] += 1
+        okv, why = core.close(float(val), want, 1e-9, 1e-11)
+        if not okv:
+            res.update(ok=False, sig=base + "/%s/%s/%s" % (name, "noise-keyword" if kw != "none" else "stored-noise", shape.split(" ")[0]),
+                       detail="%s: num_data=%d beta=%s: %s = %r but (1/B) sum_i term_i(noise_i) - (beta/N) KL = %r with the per-point noise %s of the definition (the model's own q(f), KL = %r): %s" % (
+                           desc, N, beta, cls.__name__, float(val), want, sv.tolist(), float(kl), why))
+            return res
+    # the batch is the whole data set in some order: N * ELBO against the exact log marginal likelihood / collapsed bound with diag(noise)
+    if sorted(idx) == list(range(Ns)):
+        Pb = prior_blocks(torch, model, Xb, jit)
+        Rb = reference(torch, Pb, yb, sv, jit)
+        okk, got = core.guarded(lambda: objective(torch, gpytorch, gpytorch.mlls.VariationalELBO, model, lik, Xb, yb, Ns, 1.0, call_kw=ckw))
+        if not okk:
+            res.update(ok=False, sig=base + "/elbo/raises", detail="%s: %s" % (desc, got))
+            return res
+        E = float(got[0]) * Ns
+        mq, Sq = get_q(torch, model, strat, Pb)
+        klq = kl_gauss(torch, mq, Sq, Rb["ms"], Rb["Ss"])
+        top = max(Rb["ex"], Rb["exj"])
+        res["n"] += 1
+        if E > top + 1e-9 * max(1.0, abs(top)):
+            res.update(ok=False, sig=base + "/bound", detail="%s: N * ELBO = %r exceeds the exact log marginal likelihood %r of the same kernel / mean / per-point noise" % (desc, E, Rb["ex"]))
+            return res
+        if not within(E, Rb["col1"] - klq, Rb["col0"] - klq, 1e-6):
+            res.update(ok=False, sig=base + "/gap-is-kl", detail="%s: N * ELBO = %r; collapsed bound %r minus KL(q(u) || optimal q(u)) = %r gives %r" % (desc, E, Rb["col0"], klq, Rb["col0"] - klq))
+            return res
+    res["sample"] = dict(case=desc, per_point_noise=sv.tolist())
+    return res
+
+
+RUNNERS = {"asm": run_asm, "rat": run_rat, "ngdrat": run_ngdrat, "cell": run_cell, "hist": run_hist, "noise": run_noise}
 
 
 def _worker(cases):
     torch = core.setup_torch()
     import gpytorch
     out = []
+    import time
     for c in cases:
+        t0 = time.time()
         try:
             r = RUNNERS[c["kind"]](torch, gpytorch, c)
         except core.Machinery:
@@ -841,9 +1295,10 @@ def _worker(cases):
             if fr is None:
                 raise
             # the implementation raised outside a guarded call (e.g. while its variational distribution was read back)
-            area = {"asm": "assembly", "rat": "rational", "ngdrat": "ngd-rational", "cell": "svgp"}[c["kind"]]
+            area = {"asm": "assembly", "rat": "rational", "ngdrat": "ngd-rational", "cell": "svgp", "hist": "hist", "noise": "noise"}[c["kind"]]
             r = dict(key=["raised", c["kind"], core.digest(c)], ok=False, nontrivial=True, case=c, sig="C15/%s/raises/%s" % (area, type(e).__name__),
                      detail="the library raised %s: %s (at %s line %d) on %s" % (type(e).__name__, str(e)[:300], fr.filename, fr.lineno, str({k: v for k, v in c.items() if k not in ("exp", "out")})[:400]))
+        r["t"] = (c["kind"], time.time() - t0)
         out.append(r)
     return out
 
@@ -855,13 +1310,26 @@ def run(ck):
     rnd = random.Random(ck.seed)
     ck.rule = ("assembly: every configuration (objective x B x declared N x beta x combine_terms x priors x prior site (model / likelihood / split) x added losses x event rank) decoded on the real "
                "classes against TLC's exact rational value; rational: TLC's exact ELBO pieces / NGD histories on integer instances through real SVGP models; "
-               "svgp/ngd cells: seeded models per lattice cell against the definition, the exact marginal, collapsed - KL(q || q_opt) and the optimal q(u). "
-               "non-trivial = a scale factor differs from one (assembly), q(u) differs from the prior (rational), history of >= 2 actions (ngd), every seeded cell")
+               "svgp/ngd cells: seeded models per lattice cell against the definition, the exact marginal, collapsed - KL(q || q_opt) and the optimal q(u); "
+               "noise cells: FixedNoiseGaussianLikelihood (x learn_additional_noise) x minibatch index sequence (B < N, B = N stored / permuted / resampled, B > N) x noise= keyword "
+               "(none / gathered / fresh) x objective against the definition with the spec's per-point noise; hist cells: histories of the raw variational parameters "
+               "(optimiser steps, dense tensors through load_state_dict / assignment) of every variational distribution class, every state against the dense definition at the "
+               "REPORTED q(u), the exact marginal and collapsed - KL(q || q_opt). "
+               "non-trivial = a scale factor differs from one or a keyword is forwarded (assembly), q(u) differs from the prior (rational), history of >= 2 actions (ngd), "
+               "every seeded / noise cell, every history with >= 1 action")
     ck.assumptions = [
         "the tuple returned with combine_terms=False lists the definition's terms (likelihood, KL, prior[, added]); a missing fourth component means 'no added loss'",
         "GammaRobustVariationalELBO: only the shared assembly (1/B over its per-point terms, beta/N, 1/N, added losses) is decided; its per-point terms are measured "
         "on one-point batches of the same class, its closed form is not compared with the gamma-divergence of the paper",
-        "likelihoods with exact expected log-probabilities = GaussianLikelihood (homoskedastic); PredictiveLogLikelihood's per-point term is log N(y_i; mu_i, v_i + s2)",
+        "likelihoods with exact expected log-probabilities = GaussianLikelihood (homoskedastic) and FixedNoiseGaussianLikelihood (known per-point noise, optionally plus a learned "
+        "homoskedastic term); PredictiveLogLikelihood's per-point term is log N(y_i; mu_i, v_i + s2_i)",
+        "per-point noise of minibatch point k (VarObjective.tla DefNoise): the caller's noise= values in the caller's order when given; otherwise the likelihood's stored values by "
+        "position, which is only defined for a batch of the stored size; a batch of another size without noise= (the library warns and uses zero noise) is not decided",
+        "the objective is judged at the q(u) that variational_distribution() reports (mean, covariance): q(f) marginals and KL(q(u) || p(u)) are recomputed densely from it; entries of "
+        "the raw tensors that are not parameters of q(u) (above the diagonal of the Cholesky factor / natural matrices, signs of mean-field standard deviations) are arbitrary in the "
+        "'generic' states; DeltaVariationalDistribution: the KL term is read as minus the log prior density at the point in the strategy's own coordinates (MAP), no bound clause",
+        "history steps: SGD(lr 0.05) on the variational parameters, Adam(lr 0.05) on every parameter / on the hyperparameters, NGD(lr 0.3 / 1) on the natural parameters; "
+        "NaturalVariationalDistribution is only stepped with NGD (the library documents other optimisers as unsupported); references are recomputed from the current hyperparameters",
         "the prior is what the model evaluates to: the strategies add variational_cholesky_jitter (1e-6 in double) to Kzz, the whitened strategy also to the diagonal "
         "of Kxx. The optimal q(u) and the collapsed bound use Kzz + jitter; N*ELBO must lie in [collapsed - n*jitter/(2 s2), collapsed] - KL(q||q_opt) to 1e-6 relative "
         "(both placements of the Kxx jitter accepted) and below max(log N(y; m, Kxx + s2 I), log N(y; m, Kxx + (s2 + jitter) I)); rational instances run with jitter_val=0 "
@@ -878,11 +1346,12 @@ def run(ck):
         "float64, 8-13 points, 3-5 inducing points, noise >= 8% of the signal variance, cond(Kzz), cond(Kxx + s2 I) <= 1e4 (else the cell instance is skipped and counted)",
     ]
     wd = os.path.join(tlc.BUILD, PID)
-    nb = 300 if thorough else 64
-    ng = 60 if thorough else 8
     parts = 4 if thorough else 2
-    binst = frozen.BOUND[:nb]
-    ginst = frozen.NGD[:ng]
+    # homoskedastic instances (GaussianLikelihood) + instances with a non-constant per-point noise vector (FixedNoiseGaussianLikelihood)
+    binst = [frozen.with_nv(i) for i in (frozen.BOUND[:200] + frozen.HET_BOUND[:100] if thorough else frozen.BOUND[:40] + frozen.HET_BOUND[:24])]
+    ginst = [frozen.with_nv(i) for i in (frozen.NGD[:40] + frozen.HET_NGD[:20] if thorough else frozen.NGD[:5] + frozen.HET_NGD[:3])]
+    nfam = 8
+    hist_depth = 3 if thorough else 2
     jobs, labels = [], []
 
     def job(name, label, part, dump, **kw):
@@ -893,23 +1362,26 @@ def run(ck):
         labels.append(label)
 
     cur_inv = ["PositiveBetaOK"] + (["PredictionsSharp"] if not REPAIRS_IN_TREE else ["AssemblyOK"])
-    job("asm_current", "assembly (model of the code in the tree)", "assembly", True, repairs=REPAIRS_IN_TREE, invariants=cur_inv)
-    job("asm_repaired", "assembly (repaired model, whole lattice)", "assembly", False, repairs=ALL_REPAIRS, invariants=["AssemblyOK"])
-    job("lattice", "float64 lattice", "lattice", True, invariants=["LatticeOK"])
+    all_repaired = set(REPAIRS_IN_TREE) == set(ALL_REPAIRS)
+    job("asm_current", "assembly (model of the code in the tree%s)" % (" = repaired model, whole lattice" if all_repaired else ""), "assembly", True, repairs=REPAIRS_IN_TREE, invariants=cur_inv)
+    if not all_repaired:        # otherwise the run above IS the repaired model with AssemblyOK over the whole lattice
+        job("asm_repaired", "assembly (repaired model, whole lattice)", "assembly", False, repairs=ALL_REPAIRS, invariants=["AssemblyOK"])
+    nfix = len(jobs)
+    job("lattice", "float64 lattice, noise cells, history machine", "lattice", True, invariants=["LatticeOK", "NoiseOK", "HistOK"], properties=["GenericSticky"], maxsteps=hist_depth)
     for p in range(parts):
         job("bound_%d" % p, "rational bound algebra %d" % p, "bound", True, instances=binst[p::parts], invariants=["BoundOK"])
     for p in range(parts):
         job("ngd_%d" % p, "NGD loop machine %d" % p, "ngd", True, instances=ginst[p::parts], invariants=["OneStepOptimal", "LabelOK", "InitLabel"],
             properties=["FixedPoint", "HalfStepMoves"], workers=4)
-    rs = tlc.run_many(jobs, parallel=3 + 2 * parts)
+    rs = tlc.run_many(jobs, parallel=min(len(jobs), max(2, core.NPROC)))
     for lab, r in zip(labels, rs):
         ck.add_tlc(r, "VarObjective " + lab)
         if r.violation:
             ck.model_drift("VarObjective.tla %s violates %s: %s" % (lab, r.violation["name"], str(r.violation["trace"][:1])[:300]))
         elif r.rc != 0 or "Error:" in r.stdout:
             raise tlc.TLCError("TLC failed on VarObjective %s:\n%s" % (lab, r.stdout[-1500:]))
-    r_asm, r_rep, r_lat = rs[:3]
-    r_bound, r_ngd = rs[3:3 + parts], rs[3 + parts:]
+    r_asm, r_rep, r_lat = rs[0], rs[nfix - 1], rs[nfix]
+    r_bound, r_ngd = rs[nfix + 1:nfix + 1 + parts], rs[nfix + 1 + parts:]
     if any(r.violation for r in [r_rep, r_lat] + r_bound + r_ngd):
         raise tlc.TLCError("a TLC invariant of VarObjective.tla that does not depend on the modelled code version is violated: %s" % [
             (lab, r.violation["name"]) for lab, r in zip(labels, rs) if r.violation])
@@ -940,19 +1412,35 @@ def run(ck):
             if not (o["pd"] and o["closed"] and o["tight"] and o["gap"] and o["attained"]):
                 raise core.Machinery("rational instance with a false clause passed the invariant: %s" % c)
             n = len(inst["X"])
+            het = len(set(inst["nv"])) > 1
             for strat in STRATS:
                 if strat == "unwhitened" and inst["X"] == inst["Z"]:
                     continue
                 rr = random.Random(ck.seed * 31 + nrat)
+                perm = list(range(n))
+                while perm == list(range(n)):
+                    rr.shuffle(perm)
+                resample = [rr.randrange(n) for _ in range(n)]
+                # subset (B < N), the whole data set in another order and a resample of the stored size (B = N), B = N + 1
+                sized = [(perm, n, 1.0), (resample, 2 * n, 0.5), (perm + [rr.randrange(n)], n, 0.25)]
                 bts = [(sorted(rr.sample(range(n), rr.randint(1, n - 1))), rr.choice([n, 2 * n, 10]), rr.choice([1.0, 0.5, 0.25])), (list(range(n)), 10, 0.5)]
+                bts += sized if thorough else [sized[0 if het and nrat % 2 else nrat % 3]]
                 if strat == "unwhitened":      # a batch identical to the inducing set takes the strategy's shortcut branch (lattice section "equal")
                     bts = [b for b in bts if [inst["X"][i] for i in b[0]] != inst["Z"]]
-                cases.append(dict(kind="rat", inst=inst, q=c["q"], strat=strat, batches=bts,
-                                  out={k: o[k] for k in ("qm", "qS", "mu", "v", "ell", "klr", "kla", "er", "ea", "cr", "ca", "mr", "ma")}))
+                # raw form of the factor handed to the distribution (spec: RawForms) x the way it is handed over; likelihood class by noise vector
+                for raw in ("tri", "dense"):
+                    if raw == "dense" and len(inst["Z"]) == 1:
+                        continue                                  # a 1 x 1 factor has no entries above the diagonal
+                    if not thorough and len(inst["Z"]) > 1 and raw != ("dense" if (nrat + STRATS.index(strat)) % 2 == 0 or c["q"] == "raw" else "tri"):
+                        continue                                  # quick tier: one raw form per (instance, q, strategy), alternating
+                    how = ("assign", "state_dict")[(nrat + (raw == "dense")) % 2]
+                    likv = (("fixed", "fixed_learn")[nrat % 2]) if het else ("fixed" if nrat % 5 == 0 else "gaussian")
+                    cases.append(dict(kind="rat", inst=inst, q=c["q"], strat=strat, batches=bts, raw=raw, how=how, likv=likv, seed=ck.seed * 13 + nrat,
+                                      out={k: o[k] for k in ("qm", "qS", "rawC", "mu", "v", "ell", "klr", "kla", "er", "ea", "cr", "ca", "mr", "ma")}))
             nrat += 1
-    if nrat != 7 * len(binst):
-        ck.vacuous("TLC evaluated %d of %d (instance, q) pairs" % (nrat, 7 * len(binst)))
-    ck.section("rational_bound", instances=len(binst), q_family=7, pairs=nrat)
+    if nrat != nfam * len(binst):
+        ck.vacuous("TLC evaluated %d of %d (instance, q) pairs" % (nrat, nfam * len(binst)))
+    ck.section("rational_bound", instances=len(binst), heteroskedastic=sum(1 for i in binst if len(set(i["nv"])) > 1), q_family=nfam, pairs=nrat, raw_forms=2)
     # ---- NGD machine: replay the maximal histories, compare after every action
     gknown = {inst_key(i): i for i in ginst}
     nhist, labs, acts = 0, set(), set()
@@ -978,16 +1466,65 @@ def run(ck):
         ck.vacuous("NGD machine: labels %s / actions %s reached" % (sorted(labs), sorted(acts)))
     ck.section("ngd_machine", instances=len(ginst), maximal_histories=nhist, labels=sorted(labs))
     # ---- float64 lattice
-    ncell = 0
+    ncell = nnoise = nnoise_undef = 0
     nseeds = 10 if thorough else 1
-    for st in r_lat.states():
+    htable = {}
+    lat_states = sorted(r_lat.states(), key=lambda st: repr((plain(st["c"]), list(st["hist"]))))      # a run-independent order
+    for st in lat_states:
         cell = plain(st["c"])
+        if cell["sec"] == "hist":
+            htable[(repr(sorted(cell.items())), tuple(st["hist"]))] = (cell, plain(st["out"]))
+            continue
+        if cell["sec"] == "noise":
+            o = plain(st["out"])
+            if not (o["agree"] and o["own"]):
+                raise core.Machinery("noise cell with a false clause passed the invariant: %s" % cell)
+            if not o["defined"]:
+                nnoise_undef += 1
+                continue
+            nnoise += 1
+            B, Ns = len(cell["idx"]), cell["Ns"]
+            # quick tier: every cell whose batch has the stored size (the coincidence class) + every third of the others
+            if not thorough and B != Ns and nnoise % 3:
+                continue
+            # quick tier: one strategy per (data set size, batch, keyword, learn) cell, alternating; the gamma-robust objective on every other case
+            hsh = sum(cell["idx"]) + B + Ns + ("none", "gathered", "fresh").index(cell["kw"]) + int(cell["learn"]) + ck.seed
+            if not thorough and STRATS[hsh % 2] != cell["strat"]:
+                continue
+            for k in range(2 if thorough else 1):
+                cases.append(dict(kind="noise", cell=cell, exp=dict(defined=True, base=o["base"], second=o["second"]), gamma=bool(thorough or (hsh // 2) % 2 == 0),
+                                  seed=(ck.seed * 7121 + nnoise * 29 + k * 5) % (2 ** 31)))
+            continue
         ncell += 1
         for k in range(nseeds):
             cases.append(dict(kind="cell", cell=cell, expect=plain(st["out"]), hyper=bool((ncell + k) % 2), seed=(ck.seed * 104729 + ncell * 37 + k * 11) % (2 ** 31)))
     if ncell == 0:
         ck.vacuous("no lattice cells generated")
     ck.section("lattice", cells=ncell, seeds_per_cell=nseeds)
+    nnoise_cases = sum(1 for c in cases if c["kind"] == "noise")
+    if nnoise_cases == 0:
+        ck.vacuous("no noise cells generated")
+    ck.section("noise_cells", defined=nnoise, not_defined=nnoise_undef, replayed=nnoise_cases)
+    # ---- history machine: replay maximal histories, verify every state on the way
+    nh_all = nh = 0
+    hacts, hpos = set(), set()
+    for (ckey, h), (cell, o) in sorted(htable.items()):
+        hacts.update(h)
+        hpos.add(o["pos"])
+        if len(h) != hist_depth:
+            continue
+        nh_all += 1
+        # quick tier: a seed-dependent third of the maximal histories, always those with a load followed by an optimiser step
+        load_then_step = any(h[i] in ("load_dense", "assign_dense") and h[i + 1] not in ("load_dense", "assign_dense") for i in range(len(h) - 1))
+        if not thorough and not load_then_step and rnd.random() > 0.12:
+            continue
+        exp = [htable[(ckey, h[:k])][1] for k in range(len(h) + 1)]
+        # the fresh state (before the first action) is the same for every history of a cell: verified on a fifth of them in the quick tier
+        cases.append(dict(kind="hist", cell=cell, hist=list(h), exp=exp, fresh=bool(thorough or nh % 5 == 0), seed=(ck.seed * 9173 + nh_all * 41) % (2 ** 31)))
+        nh += 1
+    if hpos != {"fresh", "moved", "generic"} or not {"load_dense", "assign_dense", "sgd", "adam", "ngd", "ngd1", "hyper"} <= hacts:
+        ck.vacuous("history machine: positions %s / actions %s reached" % (sorted(hpos), sorted(hacts)))
+    ck.section("history_machine", states=len(htable), maximal_histories=nh_all, replayed=nh, depth=hist_depth)
 
     rnd.shuffle(cases)
     chunk = 10
@@ -996,7 +1533,21 @@ def run(ck):
     # the cells of one predicted cause (beta = 0) last: replay files are written for the first 50 violations only
     results.sort(key=lambda r: (1 if r.get("predicted") and not r.get("ok", True) else 0))
     ck.absorb(results)
+    tk = {}
+    for r in results:
+        if "t" in r:
+            k, t = r.pop("t")
+            tk[k] = [tk.get(k, [0, 0.0])[0] + 1, round(tk.get(k, [0, 0.0])[1] + t, 2)]
+    ck.extra["replay_cpu_seconds_by_kind"] = {k: dict(cases=v[0], cpu_s=v[1]) for k, v in sorted(tk.items())}
     skipped = sum(1 for r in results if r.get("skipped"))
+    hres = [r for r in results if r.get("key", [None])[0] == "hist" and r.get("ok", True) and not r.get("skipped")]
+    if not any(not r.get("ok", True) for r in results if r.get("key", [None])[0] in ("hist", "raised")):
+        for d in ("cholesky", "natural", "tril", "meanfield"):
+            if not any(r.get("generic") and r["case"]["cell"]["dist"] == d for r in hres):
+                ck.vacuous("history machine: no replayed history ends with the raw %s parameters in generic (dense) position" % d)
+    drifts = [r["drift"] for r in results if r.get("drift")]
+    if drifts:
+        ck.model_drift("%d rational case(s): %s" % (len(drifts), drifts[0]))
     cells = [r for r in results if r.get("key", [None])[0] == "cell" and not r.get("skipped") and r["case"]["cell"]["sec"] != "equal"]
     nlat = sum(1 for c in cases if c["kind"] == "cell" and c["cell"]["sec"] != "equal")
     ck.section("lattice", skipped_ill_conditioned=skipped)
